@@ -6,6 +6,7 @@ import SymfcModel.Model.Inst
 import SymfcModel.Lemmas.Chain
 import SymfcModel.Lemmas.Design
 import SymfcModel.Lemmas.Pipeline
+import SymfcModel.Gen.ApiDataflow
 namespace Symfc.C05
 open Symfc
 
@@ -91,5 +92,21 @@ theorem admissible_force_constants_are_recovered_exactly {K : Type*} [Field K] [
             = (X * (A * W₂ * W₃)).transpose.mulVec (X.mulVec x₀)) :
     (A * W₂ * W₃).mulVec c = x₀ :=
   Pipeline.exact_recovery A P T ν W₂ W₃ hA h₂ h₃ hPs hPi hν X x₀ hx₀ hinj c hc
+
+/-- the API hands the dataset it stores — unchanged, whole, in the stored order — to every solver, and a dispatch branch
+    of `Symfc.solve` does nothing but look the basis sets up, call the solver, select the layout and store the result
+    (facts regenerated from api_symfc.py): the theorems of this file about the fit therefore speak about what a user
+    gets from `Symfc.run` / `Symfc.solve` for the arrays supplied -/
+theorem api_hands_the_stored_dataset_unchanged_to_every_solver :
+    Gen.solveTopLevel = ["self._check_dataset()", "orders = self._check_orders(max_order, orders)", "<dispatch>",
+                         "return self"]
+    ∧ Gen.solverDatasetArgs = List.replicate 6 ["self._displacements", "self._forces"]
+    ∧ Gen.solverBasisArgs = ["basis_set", "basis_set", "basis_set", "[basis_set_o2,basis_set_o3]",
+                             "[basis_set_o3,basis_set_o4]", "[basis_set_o2,basis_set_o3,basis_set_o4]"]
+    ∧ Gen.solveBranchKinds = [["basis", "solve", "select"], ["basis", "solve", "select"], ["basis", "solve", "select"],
+                              ["basis", "basis", "solve", "select", "store", "store"],
+                              ["basis", "basis", "solve", "select", "store", "store"],
+                              ["basis", "basis", "basis", "solve", "select", "store", "store", "store"]] := by
+  decide
 
 end Symfc.C05
